@@ -223,6 +223,9 @@ def correspondence(tier, seed, corpus=()):
     cases += ip_cases
     dumps += ip_trees
     hist["in-place operators"] = len(ip_cases)
+    cont_n, cont_bad = container_operands(rng)
+    problems += cont_bad
+    hist["matrix containers (list / tuple / ndarray) handed to PSDMatrix"] = cont_n
     kind_rows, kind_bad = kinds_table()
     seen_kinds = set()
     for kb in kind_bad:
@@ -247,6 +250,68 @@ def correspondence(tier, seed, corpus=()):
                 samples=[dict(tree=dumps[i][0], result=dumps[i][1]) for i in range(min(2, len(dumps)))],
                 distribution=dict(root_ops=hist, size_min=min(sizes), size_max=max(sizes),
                                   size_mean=round(sum(sizes) / len(sizes), 2)))
+
+
+# ------------------------------------------------------------------ containers as operands
+def container_operands(rng, n=24):
+    """a matrix of expressions handed to PSDMatrix / add_psd_matrix as nested lists, nested tuples or an object ndarray,
+    with Expression and plain-number entries: the caller's container is an OPERAND -- it keeps its entries (the same
+    objects, numbers stay numbers), and what was built does not change when the caller re-uses the container
+    (seed C06-11: np.asarray instead of a copy)."""
+    import numpy as np
+    from PEPit import PEP, Expression, PSDMatrix
+    from PEPit.functions import ConvexFunction
+    bad, done = [], 0
+    for k in range(n):
+        pep = PEP()
+        f = pep.declare_function(ConvexFunction)
+        e, t_, u = Expression(), Expression(), Expression()
+        size = rng.choice([1, 2, 2, 3])
+        pool = [e, t_, u, 2 * e - t_, 1, 0.5, 0, -2.0]
+        rows = [[rng.choice(pool) for _ in range(size)] for _ in range(size)]
+        rows[rng.randrange(size)][rng.randrange(size)] = rng.choice(pool[:4])    # at least one Expression: an all-number
+        #                                           matrix is a constant LMI, which numpy stores with a numeric dtype
+        kind = ["list", "tuple", "ndarray"][k % 3]
+        if kind == "list":
+            cont = [list(r) for r in rows]
+        elif kind == "tuple":
+            cont = tuple(tuple(r) for r in rows)
+        else:
+            cont = np.empty((size, size), dtype=object)
+            for i in range(size):
+                for j in range(size):
+                    cont[i, j] = rows[i][j]
+        how = ["PSDMatrix", "pep.add_psd_matrix", "function.add_psd_matrix"][(k // 3) % 3]
+        try:
+            if how == "PSDMatrix":
+                psd = PSDMatrix(matrix_of_expressions=cont)
+            elif how == "pep.add_psd_matrix":
+                pep.add_psd_matrix(cont)
+                psd = pep.list_of_psd[-1]
+            else:
+                f.add_psd_matrix(cont)
+                psd = f.list_of_psd[-1]
+        except Exception as ex:
+            bad.append(dict(kind="implementation-raised", tree=["psd-container", kind, how], error=repr(ex)[:200]))
+            continue
+        done += 1
+        same = all((cont[i][j] is rows[i][j]) or (not hasattr(rows[i][j], "decomposition_dict")
+                                                  and type(cont[i][j]) is type(rows[i][j]) and cont[i][j] == rows[i][j])
+                   for i in range(size) for j in range(size))
+        if not same:
+            bad.append(dict(kind="operand-mutated", tree=["psd-container", kind, how],
+                            detail="the caller's container no longer holds the entries it was given"))
+            continue
+        built = [[dict((id(a), b) for a, b in psd[i, j].decomposition_dict.items()) for j in range(size)] for i in range(size)]
+        if kind in ("list", "ndarray"):
+            for i in range(size):
+                for j in range(size):
+                    cont[i][j] = 7 * u + 3          # the caller re-uses its buffer
+            after = [[dict((id(a), b) for a, b in psd[i, j].decomposition_dict.items()) for j in range(size)] for i in range(size)]
+            if after != built:
+                bad.append(dict(kind="operand-mutated", tree=["psd-container", kind, how],
+                                detail="the matrix built from the container changes when the caller re-uses the container"))
+    return done, bad
 
 
 # ------------------------------------------------------------------ operand kinds
